@@ -58,6 +58,10 @@ func (m ClientState) Validate() error {
 	if m.Epoch == 0 {
 		return sdkerrors.Wrap(ErrInvalidGenesisBlock, "epoch cannot be zero")
 	}
+	// the header's height is the height of the first consensus state; genesis validation rejects a zero height
+	if m.Header.Height.RevisionHeight == 0 {
+		return sdkerrors.Wrap(ErrInvalidGenesisBlock, "header height cannot be zero")
+	}
 	return m.Header.ValidateBasic()
 }
 
